@@ -4,9 +4,6 @@ Import ListNotations.
 Require Import PGM.Base.Alg PGM.Base.Sums PGM.Model.Domain PGM.Model.Dataset.
 Set Implicit Arguments.
 
-(* all cells of a shape in row-major order *)
-Fixpoint cells (shape : list nat) : list (list nat) :=
-  match shape with [] => [[]] | n :: ns => flat_map (fun v => map (cons v) (cells ns)) (seq 0 n) end.
 Definition inshape (c shape : list nat) := Forall2 lt c shape.
 
 Lemma in_cells shape : forall c, In c (cells shape) <-> inshape c shape.
@@ -50,8 +47,6 @@ Proof. intros H. pose proof (ravel_lt H) as L. apply in_cells in H.
 Lemma ravel_inj shape c c' : inshape c shape -> inshape c' shape -> ravel shape c = ravel shape c' -> c = c'.
 Proof. intros H H' E. rewrite <- (nth_ravel H), <- (nth_ravel H'). now rewrite E. Qed.
 
-Fixpoint list_eqb (a b : list nat) : bool :=
-  match a, b with [], [] => true | x :: a', y :: b' => Nat.eqb x y && list_eqb a' b' | _, _ => false end.
 Lemma list_eqb_spec a : forall b, list_eqb a b = true <-> a = b.
 Proof. induction a as [|x a IH]; destruct b as [|y b]; simpl; try (split; congruence).
   rewrite andb_true_iff, Nat.eqb_eq, IH. split. intros [-> ->]; auto. intros E; inversion E; auto. Qed.
